@@ -852,8 +852,9 @@ func (l *directedMultiplexLocalMover) deltaQ(n graph.Node) (deltaQ float64, dst 
 			for j, u := range c {
 				uid := u.ID()
 				if uid == id {
-					// Only mark and check src community on the first layer.
-					if layer == 0 {
+					// Only mark and check src community on the first
+					// layer that is considered.
+					if src != (commIdx{i, j}) {
 						if src.community != -1 {
 							panic("community: multiple sources")
 						}
